@@ -13,8 +13,9 @@ import (
 
 func init() {
 	register(&propSpec{
-		ID:    "C15",
-		Title: "Generic cache: bounded map with exact eviction notifications, for every policy",
+		ID:            "C15",
+		UsesCallGraph: true,
+		Title:         "Generic cache: bounded map with exact eviction notifications, for every policy",
 		Explanation: "Structural necessary conditions of C15 on the generic bodies of pkg/cache: (lock) byKey/size/closing and every policy call are touched only with mux held, mutations and policy.Access/Admit/Remove/Victim only with the " +
 			"write lock (so Get cannot use RLock); (bijection) in every function map insert ⇔ size++ ⇔ policy.Admit and map delete ⇔ size-- ⇔ policy.Remove travel together on every path; (bounded) Set's insert path passes a " +
 			"size == / >= Capacity() test whose full edge evicts (a `>` would admit capacity+1); (callback-exactly-once) evictItem notifies exactly once per path (sync callback or one event), processEvents calls the callback only for " +
